@@ -2,7 +2,7 @@
 From Coq Require Import Ascii String List Bool Arith ZArith NArith.
 From PTBase Require Import Exn PyStr PyNum PyVal Fmt FixedFormat.
 From Gen Require Import GenTables GenMulgrid.
-From P Require Import Flt Lines MulgridIO RoundTrip Header Idem Fields Natural Canon Feet NatIdem HdrIdem NameLists.
+From P Require Import Flt Lines MulgridIO RoundTrip Header Idem Fields Natural Canon Feet NatIdem HdrIdem NameLists HdrOk ErrBound Margin Feet2.
 Import ListNotations.
 
 Definition ex_geo2 : geo :=
@@ -15,4 +15,6 @@ Proof. vm_compute. reflexivity. Qed.
 Example ex_geo2_aidem : aidem_ok ex_geo2 = true.
 Proof. vm_compute. reflexivity. Qed.
 Example ex_geo2_names : hdr_ok (g_hdr ex_geo2) = true /\ names_canonical ex_geo2 = true /\ cmp_ok ex_geo2 = true.
+Proof. split; [|split]; vm_compute; reflexivity. Qed.
+Example ex_geo2_arith : awf ex_geo2 = true /\ names_hyp ex_geo2 = true /\ coords_mag feet_scale ex_geo2 = true.
 Proof. split; [|split]; vm_compute; reflexivity. Qed.
